@@ -454,7 +454,7 @@ go.mod NOTHING in Lean speaks about key order, white space, indentation, CRLF, a
 clauses rest on the decoder (encoding/json, BurntSushi/toml, golang.org/x/mod/modfile) — trusted, not modelled — and are
 exercised by the generator/oracle stream only (c03gen writes every such layout; the document the extractor's own decoder makes of it is
 what the Lean side sees). For four of the formats the stream's expected list is computed by the Lean Spec from that document
-(`PackageLock.expected`, `Pipfile.expected`, `PackagesLock.expectedT`, `GoMod.expected`; theorems `C03_*_expected*`: the scan
+(`PackageLock.expected`, `Pipfile.expected`, `PackagesLock.expected`, `GoMod.expected`; theorems `C03_*_expected*`: the scan
 reports a permutation of it); for composer / Cargo / poetry the loop is append / map and the expected list is the generator's. -/
 namespace Scalibr.Lockfiles
 open Scalibr.Parsers
@@ -589,23 +589,22 @@ PAIRS — one id resolved to different versions under two target frameworks is t
 theorem C03_pkgslock (d : PackagesLock.Doc) :
     (PackagesLock.extract d).Nodup ∧ ∀ p, p ∈ PackagesLock.extract d ↔ p ∈ PackagesLock.listed d := by
   obtain ⟨h1, h2⟩ := foldl_addOnce (PackagesLock.entries d) [] List.nodup_nil
-  exact ⟨h1, fun p => by rw [PackagesLock.extract, h2]; simp [PackagesLock.listed, PackagesLock.entries]⟩
+  exact ⟨h1, fun p => by rw [PackagesLock.extract, h2]; simp [PackagesLock.listed, PackagesLock.entries, PackagesLock.isProject]⟩
 
 /-- the executable form the driver evaluates: the scan reports a permutation of the distinct listed pairs -/
 theorem C03_pkgslock_expected (d : PackagesLock.Doc) : (PackagesLock.extract d).Perm (PackagesLock.expected d) :=
   perm_dedup_of_nodup _ _ (C03_pkgslock d).1 (C03_pkgslock d).2
 
 /-- the same id at two versions under two frameworks is two packages; at the same version, one -/
-example : PackagesLock.extract [("net6.0".toList, [("A".toList, "1.0".toList)]), ("net8.0".toList, [("A".toList, "2.0".toList), ("B".toList, "3".toList)]),
-    ("net48".toList, [("B".toList, "3".toList)])]
+example : PackagesLock.extract [("net6.0".toList, [("A".toList, "1.0".toList, "Direct".toList)]), ("net8.0".toList, [("A".toList, "2.0".toList, "Direct".toList), ("B".toList, "3".toList, "Transitive".toList)]),
+    ("net48".toList, [("B".toList, "3".toList, "CentralTransitive".toList)])]
     = [⟨"A".toList, "1.0".toList⟩, ⟨"A".toList, "2.0".toList⟩, ⟨"B".toList, "3".toList⟩] := by decide
 
-/-- FINDING (known_findings.txt C03/pkgslock-project-reference): a project reference (`"type": "Project"`, no `resolved`) is
-reported as a package with an empty version although the Spec (`expectedT`) lists no package for it -/
-theorem C03_pkgslock_project_reported :
-    let d : PackagesLock.TDoc := [("net6.0".toList, [("mylib".toList, [], "Project".toList), ("A".toList, "1.0".toList, "Direct".toList)])]
-    PackagesLock.extract d.toDoc = [⟨"mylib".toList, []⟩, ⟨"A".toList, "1.0".toList⟩] ∧
-    PackagesLock.expectedT d = [⟨"A".toList, "1.0".toList⟩] := by decide
+/-- since the fix: a project reference (`"type": "Project"`, no `resolved`) is not reported (it used to come out as a package with
+an empty version: former known finding C03/pkgslock-project-reference) -/
+theorem C03_pkgslock_project_skipped :
+    PackagesLock.extract [("net6.0".toList, [("mylib".toList, [], "Project".toList), ("A".toList, "1.0".toList, "Direct".toList)])]
+      = [⟨"A".toList, "1.0".toList⟩] := by decide
 
 /-! ### go.mod -/
 
